@@ -64,6 +64,15 @@ func judgeAfter(in, prev []byte) (bool, string) {
 	if !bytes.Equal(out, in) {
 		return true, fmt.Sprintf("the decoder accepts %x but re-encoding gives %x", in, out)
 	}
+	// "... or log a received frame without it changing": the frame goes through the formatting verbs and the JSON and
+	// text encoders a log line uses, and still re-encodes to what was received
+	_ = fmt.Sprintf("%v %+v %s", p, &p, p)
+	_, _ = json.Marshal(p)
+	_, _ = json.Marshal(&p)
+	_, _ = p.MarshalText()
+	if logged, err := p.MarshalBinary(); err != nil || !bytes.Equal(logged, in) {
+		return true, fmt.Sprintf("the frame decoded from %x was logged (fmt %%v %%+v %%s, json.Marshal, MarshalText) and then re-encodes to %x (err %v)", in, logged, err)
+	}
 	var q lorawan.PHYPayload
 	if err := q.UnmarshalBinary(append([]byte{}, out...)); err != nil {
 		return true, fmt.Sprintf("the re-encoding %x of an accepted frame is rejected: %v", out, err)
